@@ -405,6 +405,50 @@ func c13Prune(p vbase.Params, r *vbase.Result) {
 					target = cands[rng.Intn(len(cands))]
 				}
 			}
+			doomed := -1
+			if target < 0 && rng.Chance(1, 4) {
+				// a commit that cannot succeed: the rule selects an ancestor-or-self of id whose path down to the committed block
+				// passes through a block that is neither stored nor obtainable. Nothing may be committed, and nothing reported
+				// abandoned that a later, successful commit puts on the chain (judged at the end against the final chain).
+				cur, gap := id, false
+				var path []int
+				for cur != committed && cur > 0 {
+					if !stored[cur] && !fetchOnly[cur] {
+						gap = true
+					}
+					path = append(path, cur)
+					cur = f.Blocks[cur].Parent
+				}
+				if gap && cur == committed && len(path) > 0 {
+					doomed = path[rng.Intn(len(path))]
+					// only selections above the gap are doomed
+					ok := false
+					for c2 := doomed; c2 != committed && c2 > 0; c2 = f.Blocks[c2].Parent {
+						if !stored[c2] && !fetchOnly[c2] {
+							ok = true
+						}
+					}
+					if !ok || (!stored[doomed] && !fetchOnly[doomed]) {
+						doomed = -1
+					}
+				}
+			}
+			if doomed >= 0 {
+				ruler.next = rf.blocks[doomed]
+				before := len(commits)
+				_ = cm.TryCommit(rf.blocks[id])
+				for el.Tick(context.Background()) {
+				}
+				trace = append(trace, fmt.Sprintf("store(%d)doomed-commit(%d)", id, doomed))
+				r.Obs("commits_that_cannot_succeed", 1)
+				if len(commits) != before {
+					r.Violate("prune-commit-across-gap", fmt.Sprintf("a commit of block %d whose ancestry is not obtainable emitted CommitEvents %v; forest=%+v trace=%v", doomed, commits[before:], f.Blocks, trace), map[string]any{"forest": f.Blocks, "trace": trace})
+					bad = true
+					break
+				}
+				ruler.next = nil
+				continue
+			}
 			if target >= 0 {
 				ruler.next = rf.blocks[target]
 				if rng.Chance(1, 3) {
